@@ -95,9 +95,10 @@ func (k *Keeper) setOperatorConsKeyForChainID(
 	// only call the hooks if this is not genesis
 	if !genesis {
 		if found {
-			if !alreadyRecorded {
-				k.Hooks().AfterOperatorKeyReplaced(ctx, opAccAddr, prevKey, wrappedKey, chainID)
-			}
+			// called for every replacement, not only the first one of an epoch: the reverse
+			// lookup of an intermediate key must be scheduled for pruning as well, otherwise it
+			// is never deleted and the key stays unusable for ever.
+			k.Hooks().AfterOperatorKeyReplaced(ctx, opAccAddr, prevKey, wrappedKey, chainID)
 		} else {
 			k.Hooks().AfterOperatorKeySet(ctx, opAccAddr, chainID, wrappedKey)
 		}
